@@ -1,4 +1,124 @@
-From Coq Require Import QArith ZArith List Bool String.
-From CR Require Import Model.EqHash Proofs.EqHash.
-Theorem C12_placeholder : True. Proof. exact placeholder. Qed.
-Print Assumptions C12_placeholder.
+(* Props/C12.v — property C12: equality and hashing of scenario elements follow their contract.
+   Statements only.  Generic theorems (for EVERY spec table, every value): [exact <lemma of Proofs/EqHash*.v>].
+   Side conditions on the concrete table T_C12 = (Model/EqHashSpecs.v, transcribed from every __eq__/__hash__ and
+   validated attribute by attribute by Corr/C12.v) x (Gen/Tables_C12.v, regenerated from the source on every run):
+   booleans re-proved by vm_compute on every run, so a new constructor parameter, a new State subclass, an
+   attribute that __eq__ stops comparing or that __hash__ hashes finer than __eq__ compares breaks this file.
+
+   Model: Model/EqHash.v.  x == y is [eqv T x y]; hash(x) is H([hkey T x]) for a function H that maps ==-equal
+   keys to equal integers ([hkey] = None: hash() raises TypeError). *)
+From Coq Require Import QArith Qabs ZArith List Bool String Permutation.
+Import ListNotations.
+From CR Require Import Model.EqHash Gen.Tables_C12 Model.EqHashSpecs Proofs.EqHash Proofs.EqHashH.
+Open Scope Q_scope.
+
+(* ---------------------------------------------------------------- reflexive, symmetric (every table, every value) *)
+Theorem C12_eq_refl : forall T x, eqv T x x = true.
+Proof. exact eqv_refl. Qed.
+
+Theorem C12_eq_sym : forall T x y, eqv T x y = eqv T y x.
+Proof. exact eqv_sym. Qed.
+
+(* ---------------------------------------------------------------- independent of the insertion order of sets *)
+(* [vperm T x y]: y is x with the elements of sets (anywhere inside), and of lists that __eq__ compares as sets,
+   in another order *)
+Theorem C12_eq_perm_invariant : forall T x y, vperm T x y -> eqv T x y = true.
+Proof. exact eq_perm_invariant. Qed.
+
+(* ---------------------------------------------------------------- sensitive to every constructor-visible attribute *)
+(* side condition: every attribute of the generated table A_K has a comparison kind other than "ignored" *)
+Theorem C12_table_covers : covers T_C12 attrs_C12 = true.
+Proof. vm_compute. reflexivity. Qed.
+
+(* x == y  ->  every constructor-visible attribute of x is held by y with a close value: equal (nested objects: ==),
+   equal as sets for id lists, and for reals / arrays element-wise within 1e-10 ([attr_close], [num_close]).
+   Contrapositive: a single attribute that differs (reals: by more than 1e-10) makes the objects unequal. *)
+Theorem C12_eq_sensitive :
+  forall c attrs, In (c, attrs) attrs_C12 ->
+  forall fs c' fs' sp', spec_of T_C12 c' = Some sp' -> eqv T_C12 (VObj c fs) (VObj c' fs') = true ->
+  forall a v, In a attrs -> In (a, v) fs ->
+  exists sp v', spec_of T_C12 c = Some sp /\ ekind_of sp a <> KIgnored /\
+                In (a, v') fs' /\ attr_close T_C12 (ekind_of sp a) v v'.
+Proof. exact (eq_sensitive_visible T_C12 attrs_C12 C12_table_covers). Qed.
+
+(* states (all generated State subclasses, incl. CustomState with freely named attributes) and signal states:
+   every attribute the instance holds is compared *)
+Theorem C12_table_states : all_compared_classes T_C12 ("SignalState"%string :: state_classes_C12) = true.
+Proof. vm_compute. reflexivity. Qed.
+
+Theorem C12_eq_sensitive_states :
+  forall c, In c ("SignalState"%string :: state_classes_C12) ->
+  forall fs c' fs' sp', spec_of T_C12 c' = Some sp' -> eqv T_C12 (VObj c fs) (VObj c' fs') = true ->
+  forall a v, In (a, v) fs ->
+  exists sp v', spec_of T_C12 c = Some sp /\ ekind_of sp a <> KIgnored /\
+                In (a, v') fs' /\ attr_close T_C12 (ekind_of sp a) v v'.
+Proof. exact (eq_sensitive_dynamic T_C12 _ C12_table_states). Qed.
+
+Theorem C12_eq_differs : forall T c fs c' fs' sp sp' a v,
+  spec_of T c = Some sp -> spec_of T c' = Some sp' -> In (a, v) fs -> is_ignored (ekind_of sp a) = false ->
+  (forall v', In (a, v') fs' -> ~ attr_close T (ekind_of sp a) v v') ->
+  eqv T (VObj c fs) (VObj c' fs') = false.
+Proof. exact eq_differs. Qed.
+
+(* what "close" means for reals compared after rounding to 10 decimals *)
+Theorem C12_round10_close : forall x y, round10 x == round10 y -> Qabs (x - y) <= 1 # (10 ^ 10).
+Proof. exact round10_eq_close. Qed.
+
+Theorem C12_eq_same_family : forall T c fs c' fs' sp sp',
+  spec_of T c = Some sp -> spec_of T c' = Some sp' -> eqv T (VObj c fs) (VObj c' fs') = true ->
+  family_of T c = family_of T c'.
+Proof. exact eq_same_family. Qed.
+
+(* ---------------------------------------------------------------- equal objects have equal hashes *)
+(* side condition: attribute by attribute, what __hash__ does identifies at least what __eq__ identifies *)
+Theorem C12_table_hash_coarser : hash_coarser T_C12 = true.
+Proof. vm_compute. reflexivity. Qed.
+
+Theorem C12_eq_hash : forall x y kx ky,
+  eqv T_C12 x y = true -> hkey T_C12 x = Some kx -> hkey T_C12 y = Some ky -> peq kx ky = true.
+Proof. exact (eq_hash_consistent T_C12 C12_table_hash_coarser). Qed.
+
+(* ---------------------------------------------------------------- non-vacuity *)
+Definition rect (cx : Q) : value :=
+  VObj "Rectangle" [("length", VNum 4); ("width", VNum 2); ("center", VArr [2%Z] [cx; 1]); ("orientation", VNum 0)].
+Definition obst (ids : list value) : value :=
+  VObj "StaticObstacle" [("obstacle_id", VInt 7); ("obstacle_type", VEnum "ObstacleType.PARKED_VEHICLE");
+                         ("obstacle_shape", rect 0);
+                         ("initial_state", VObj "InitialState" [("time_step", VInt 0); ("position", VArr [2%Z] [5000; 1]);
+                                                                ("orientation", VNum (1 # 2))]);
+                         ("initial_center_lanelet_ids", VSet ids); ("initial_shape_lanelet_ids", VNone);
+                         ("initial_signal_state", VNone); ("signal_series", VNone)].
+
+Example C12_nonvacuous :
+  (* a centre moved by 3e-10 is seen, one moved by 2e-11 is not; hashes are defined and agree when equal *)
+  eqv T_C12 (rect 5000) (rect (5000 + (3 # 10 ^ 10))) = false /\
+  eqv T_C12 (rect 5000) (rect (5000 + (2 # 10 ^ 11))) = true /\
+  hash_eq T_C12 (rect 5000) (rect (5000 + (2 # 10 ^ 11))) = Some true /\
+  hash_eq T_C12 (rect 5000) (rect (5000 + (3 # 10 ^ 10))) = Some false /\
+  (* the id sets {0, 8} and {8, 0} (colliding in CPython's set table); None defaults hash *)
+  vperm T_C12 (obst [VInt 0; VInt 8]) (obst [VInt 8; VInt 0]) /\
+  eqv T_C12 (obst [VInt 0; VInt 8]) (obst [VInt 8; VInt 0]) = true /\
+  hash_eq T_C12 (obst [VInt 0; VInt 8]) (obst [VInt 8; VInt 0]) = Some true /\
+  eqv T_C12 (obst [VInt 0; VInt 8]) (obst [VInt 0; VInt 16]) = false /\
+  In ("Rectangle"%string, ["length"; "width"; "center"; "orientation"]%string) attrs_C12.
+Proof.
+  repeat split; try (vm_compute; reflexivity).
+  - apply vp_obj. repeat (apply vpf_cons; [apply vp_refl|]).
+    apply vpf_cons; [|apply vpf_cons; [apply vp_refl|]; repeat (apply vpf_cons; [apply vp_refl|]); apply vpf_nil].
+    eapply vp_set; [repeat constructor; apply vp_refl|]. apply perm_swap.
+  - vm_compute. tauto.
+Qed.
+
+Print Assumptions C12_eq_refl.
+Print Assumptions C12_eq_sym.
+Print Assumptions C12_eq_perm_invariant.
+Print Assumptions C12_table_covers.
+Print Assumptions C12_eq_sensitive.
+Print Assumptions C12_table_states.
+Print Assumptions C12_eq_sensitive_states.
+Print Assumptions C12_eq_differs.
+Print Assumptions C12_round10_close.
+Print Assumptions C12_eq_same_family.
+Print Assumptions C12_table_hash_coarser.
+Print Assumptions C12_eq_hash.
+Print Assumptions C12_nonvacuous.
